@@ -73,7 +73,7 @@ def epsilon_add(reference: list, computed: list):
 
     eps = 0.0
     for ref_val in reference:
-        eps_j = np.infty
+        eps_j = np.inf
         for comp_val in computed:
             eps_k = max(np.subtract(comp_val, ref_val))
             eps_j = min(eps_k, eps_j)
